@@ -120,26 +120,30 @@ def _execute(tag, cases, seed, acc, runs):
     events = [e for e in events if e.get("kind") == "ip"]
     if not events:
         return
-    trace = os.path.join(vf.WORK, "C12_%s_trace.ndjson" % tag)
-    with open(trace, "w") as o:
-        for e in events:
-            o.write(json.dumps({k: e[k] for k in ("g", "res", "r", "exact", "valid")}) + "\n")
-    res = vf.run_tlc("C12_%s_judge" % tag, "Trace_Interior", dict(invariants=["VerdictType"]), timeout=3000,
-                     env_extra={"TRACE": trace})
-    vf.tlc_ok_or_die(res)
+    # judged in chunks: one TLC run deserialises its whole trace in every worker, which does not scale to the 5 * 10^5 events
+    # of the thorough tier (first thorough run after the representation variants were added: 47 min, then a JSON error)
     seen = {}
-    with open(res["out"], errors="replace") as f:
-        for line in f:
-            m = re.match(r'<<"V", (\d+), "(\w+)", "(\w+)">>', line)
-            if m:
-                seen[int(m.group(1))] = (m.group(2), m.group(3))
-    os.remove(res["out"])
-    os.remove(trace)
+    CH = 40000
+    for ci in range(0, len(events), CH):
+        trace = os.path.join(vf.WORK, "C12_%s_trace_%d.ndjson" % (tag, ci // CH))
+        with open(trace, "w") as o:
+            for e in events[ci:ci + CH]:
+                o.write(json.dumps({k: e[k] for k in ("g", "res", "r", "exact", "valid")}) + "\n")
+        res = vf.run_tlc("C12_%s_judge_%d" % (tag, ci // CH), "Trace_Interior", dict(invariants=["VerdictType"]), timeout=3000,
+                         env_extra={"TRACE": trace})
+        vf.tlc_ok_or_die(res)
+        with open(res["out"], errors="replace") as f:
+            for line in f:
+                m = re.match(r'<<"V", (\d+), "(\w+)", "(\w+)">>', line)
+                if m:
+                    seen[ci + int(m.group(1))] = (m.group(2), m.group(3))
+        os.remove(res["out"])
+        os.remove(trace)
+        res["cases"] = len(events[ci:ci + CH])
+        res["harness_wall_s"] = round(hw, 1) if ci == 0 else 0
+        runs.append(res)
     if len(seen) != len(events):
         raise vf.ToolError("Trace_Interior judged %d of %d events" % (len(seen), len(events)))
-    res["cases"] = len(events)
-    res["harness_wall_s"] = round(hw, 1)
-    runs.append(res)
     for i, e in enumerate(events, 1):
         verdict, need = seen[i]
         acc.events += 1
